@@ -142,7 +142,7 @@ func atoi(s string) int {
 	return n
 }
 
-const guardTime = 5 * time.Second
+const guardTime = 3 * time.Second
 
 var _ = fmt.Sprint
 var _ structform.Visitor = (*recorder)(nil)
